@@ -341,7 +341,7 @@ CRASH_KINDS = [
     (r'heap-use-after-free|stack-use-after-(return|scope)', 'uaf'),
     (r'attempting double-free', 'dblfree'),
     (r'attempting free on address which was not malloc|alloc-dealloc-mismatch|bad-free', 'badfree'),
-    (r'(heap|stack|global)-buffer-overflow|stack-buffer-underflow|container-overflow|dynamic-stack-buffer-overflow', 'oob'),
+    (r'(heap|stack|global)-buffer-overflow|stack-buffer-underflow|container-overflow|dynamic-stack-buffer-overflow|use-after-poison|negative-size-param', 'oob'),
     (r'use-of-uninitialized-value', 'uninit'),
     (r'runtime error:', 'ub'),
     (r'stack-overflow', 'stackoverflow'),
